@@ -34,6 +34,11 @@ func c18RefInterp(t *testing.T, c c18Case) kit.Verdict {
 			cleanMu.Lock()
 			cleans = append(cleans, st)
 			cleanMu.Unlock()
+			if c.N == 1 {
+				// Clean holds the resource's mutex with a deferred Unlock and has
+				// marked the resource cleaned before it calls the function
+				panic(c18Panic{"ref-resource clean"})
+			}
 		})
 		return func(g, i int, op c18Op) {
 			ev := c18Ev{G: g, I: i, Op: op, Sub: "use"}
@@ -51,8 +56,12 @@ func c18RefInterp(t *testing.T, c c18Case) kit.Verdict {
 			if ev.OK || op.A == 1 {
 				ce := c18Ev{G: g, I: i, Op: op, Sub: "clean", OK: ev.OK}
 				ce.Inv = clk.now()
-				rr.Clean()
+				pan, foreign := c18Try(func() { rr.Clean() })
 				ce.Ret = clk.now()
+				ce.Pan = pan
+				if foreign != nil {
+					ce.Foreign = fmt.Sprint(foreign)
+				}
 				log.ev(ce)
 			}
 		}, nil
@@ -74,6 +83,12 @@ func c18RefInterp(t *testing.T, c c18Case) kit.Verdict {
 			}
 			pops = append(pops, porcupine.Operation{ClientId: ev.G, Input: c18PIn{K: "use"}, Output: c18POut{OK: ev.OK}, Call: ev.Inv.S, Return: ev.Ret.S})
 		case "clean":
+			if ev.Foreign != "" || (ev.Pan && c.N != 1) {
+				v.failf("ref-resource: Clean g%d#%d panicked although the clean function does not: %s", ev.G, ev.I, ev.Foreign)
+			}
+			if ev.Pan {
+				v.class("clean-function-panicked")
+			}
 			if ev.OK { // Clean matching a successful Use
 				lb = append(lb, c18Delta{ev.Inv.S, -1})
 			} else {
@@ -167,9 +182,13 @@ func c18RefInterp(t *testing.T, c c18Case) kit.Verdict {
 }
 
 func c18RefGen(rt *rapid.T) c18Case {
-	return c18Case{Gs: c18GenGs(rt, 4, func(rt *rapid.T, burst bool) c18Op {
+	c := c18Case{Gs: c18GenGs(rt, 4, func(rt *rapid.T, burst bool) c18Op {
 		return c18Op{K: "use", H: c18Hold(rt), A: rapid.SampledFrom([]int{0, 0, 1}).Draw(rt, "cleanAnyway")}
 	})}
+	if rapid.IntRange(0, 3).Draw(rt, "cleanPanics") == 0 {
+		c.N = 1 // the clean function panics (recovered by the caller of Clean)
+	}
+	return c
 }
 
 func TestVerif_C18_refresource(t *testing.T) {
@@ -195,9 +214,15 @@ func c18ManagedInterp(t *testing.T, c c18Case) kit.Verdict {
 	var generated atomic.Int64
 	log, res := c18PlayRounds(t, c, true, func(clk *c18Clock, log *c18Log) (func(g, i int, op c18Op), func()) {
 		var inside atomic.Int32
+		var genCalls atomic.Int64
 		mr := syncx.NewManagedResource(func() interface{} {
 			if inside.Add(1) != 1 {
 				genOverlap.Add(1)
+			}
+			if len(c.F) > 0 && c.F[int(genCalls.Add(1)-1)%len(c.F)].A == 2 {
+				// Take holds the write lock with a deferred Unlock
+				inside.Add(-1)
+				panic(c18Panic{"managed-resource generate"})
 			}
 			id := int(generated.Add(1))
 			inside.Add(-1)
@@ -208,9 +233,18 @@ func c18ManagedInterp(t *testing.T, c c18Case) kit.Verdict {
 			ev := c18Ev{G: g, I: i, Op: op, Sub: op.K}
 			switch op.K {
 			case "take":
+				var x interface{}
 				ev.Inv = clk.now()
-				x := mr.Take()
+				pan, foreign := c18Try(func() { x = mr.Take() })
 				ev.Ret = clk.now()
+				if pan {
+					ev.Pan = true
+					if foreign != nil {
+						ev.Foreign = fmt.Sprint(foreign)
+					}
+					log.ev(ev)
+					return
+				}
 				id, ok := x.(int)
 				if !ok {
 					id = -1
@@ -244,6 +278,17 @@ func c18ManagedInterp(t *testing.T, c c18Case) kit.Verdict {
 	for _, ev := range log.evs {
 		switch ev.Sub {
 		case "take":
+			if ev.Foreign != "" {
+				v.failf("managed-resource: Take g%d#%d panicked with a value generate did not raise: %s", ev.G, ev.I, ev.Foreign)
+				continue
+			}
+			if ev.Pan {
+				// generate panicked: no resource, nothing stored; legal only while
+				// there is no current resource (checked by the model)
+				v.class("generate-panicked")
+				pops = append(pops, porcupine.Operation{ClientId: ev.G, Input: c18PIn{K: "take-panic"}, Output: c18POut{}, Call: ev.Inv.S, Return: ev.Ret.S})
+				continue
+			}
 			if ev.Val <= 0 {
 				v.failf("managed-resource: Take g%d#%d returned nil or a foreign value", ev.G, ev.I)
 			}
@@ -298,6 +343,8 @@ func c18ManagedInterp(t *testing.T, c c18Case) kit.Verdict {
 					s.cur = 0
 				}
 				return true, s
+			case "take-panic":
+				return s.cur == 0, s
 			}
 			return false, s
 		},
@@ -306,7 +353,7 @@ func c18ManagedInterp(t *testing.T, c c18Case) kit.Verdict {
 }
 
 func c18ManagedGen(rt *rapid.T) c18Case {
-	return c18Case{Gs: c18GenGs(rt, 6, func(rt *rapid.T, burst bool) c18Op {
+	c := c18Case{Gs: c18GenGs(rt, 6, func(rt *rapid.T, burst bool) c18Op {
 		k := rapid.SampledFrom([]string{"take", "take", "take", "broken", "broken"}).Draw(rt, "k")
 		op := c18Op{K: k}
 		if k == "broken" && rapid.IntRange(0, 3).Draw(rt, "stale") == 0 {
@@ -314,6 +361,14 @@ func c18ManagedGen(rt *rapid.T) c18Case {
 		}
 		return op
 	})}
+	// plan for the n-th generate call: A=2 panics
+	if rapid.IntRange(0, 2).Draw(rt, "generatePanics") == 0 {
+		nf := rapid.IntRange(1, 4).Draw(rt, "nf")
+		for i := 0; i < nf; i++ {
+			c.F = append(c.F, c18Op{A: rapid.SampledFrom([]int{0, 0, 2}).Draw(rt, "outcome")})
+		}
+	}
+	return c
 }
 
 func TestVerif_C18_managedresource(t *testing.T) {
@@ -353,7 +408,10 @@ func c18ImmutableInterp(t *testing.T, ic c18ImmCase) kit.Verdict {
 			st := clk.now()
 			c18Sleep(plan.H)
 			en := clk.now()
-			log.exec(c18Exec{ID: id, Start: st, End: en, Fail: plan.A == 1})
+			log.exec(c18Exec{ID: id, Start: st, End: en, Fail: plan.A != 0, Pan: plan.A == 2})
+			if plan.A == 2 {
+				panic(c18Panic{"immutable-resource fetch"})
+			}
 			if plan.A == 1 {
 				return nil, c18TagErr{id}
 			}
@@ -361,9 +419,15 @@ func c18ImmutableInterp(t *testing.T, ic c18ImmCase) kit.Verdict {
 		}, syncx.WithRefreshIntervalOnFailure(interval))
 		return func(g, i int, op c18Op) {
 			ev := c18Ev{G: g, I: i, Op: op, Sub: "get"}
+			var x interface{}
+			var err error
 			ev.Inv = clk.now()
-			x, err := ir.Get()
+			pan, foreign := c18Try(func() { x, err = ir.Get() })
 			ev.Ret = clk.now()
+			ev.Pan = pan
+			if foreign != nil {
+				ev.Foreign = fmt.Sprint(foreign)
+			}
 			ev.Err = c18ErrTag(err)
 			ev.Val = -1
 			if x == nil {
@@ -395,11 +459,17 @@ func c18ImmutableInterp(t *testing.T, ic c18ImmCase) kit.Verdict {
 	}
 	for _, ev := range log.evs {
 		name := fmt.Sprintf("immutable-resource(interval %v) Get g%d#%d", interval, ev.G, ev.I)
-		if ev.Val == -1 {
+		if ev.Foreign != "" {
+			v.failf("%s panicked with a value fetch did not raise: %s", name, ev.Foreign)
+			continue
+		}
+		if ev.Pan {
+			v.class("fetch-panic-reached-caller")
+		} else if ev.Val == -1 {
 			v.failf("%s returned a foreign value", name)
 			continue
 		}
-		if ev.Val > 0 {
+		if !ev.Pan && ev.Val > 0 {
 			// F3: the value of a successful fetch that had ended
 			e, ok := execByID[ev.Val]
 			if !ok || e.Fail || e.End.S > ev.Ret.S {
@@ -453,7 +523,7 @@ func c18ImmutableGen(rt *rapid.T) c18ImmCase {
 	c := c18ImmCase{P: rapid.SampledFrom([]int{0, 1, 2, 3, 5}).Draw(rt, "interval")}
 	nf := rapid.IntRange(1, 4).Draw(rt, "nf")
 	for i := 0; i < nf; i++ {
-		c.F = append(c.F, c18Op{H: c18Hold(rt), A: rapid.SampledFrom([]int{0, 1, 1}).Draw(rt, "fail")})
+		c.F = append(c.F, c18Op{H: c18Hold(rt), A: rapid.SampledFrom([]int{0, 0, 1, 1, 1, 2}).Draw(rt, "outcome")})
 	}
 	c.Gs = c18GenGs(rt, 5, func(rt *rapid.T, burst bool) c18Op { return c18Op{K: "get"} })
 	return c
